@@ -83,7 +83,7 @@ def matches_finding(prop, payload, failure, finding):
             failure.get("site") == finding.get("exc_site")
     if m == "text":
         return _norm(payload.get("text", "")) == _norm(finding["witness"].get("text", ""))
-    if m == "c18_unpool":
+    if m == "c18_unpool" and prop == "C18":
         # the failure is attributed to the pool finding iff it disappears once every statement is unpooled
         return oracles.c18_oracle(oracles.unpooled_text(payload["text"])) is None
     return False
@@ -169,6 +169,11 @@ def oracle_cases(prop, tier, rng, inputs, fixed_only=True):
             step = (len(pls) + cap - 1) // cap
             pls = pls[::step]
         yield from pls
+        if prop == "C17":
+            n = 120 if tier == "thorough" else 16
+            step = max(1, len(pls) // n)
+            for pl in pls[::step][:n]:
+                yield dict(pl, xproc=True, runs=3)
     elif kind == "sem":
         from . import semprops
         for w in witnesses(prop):
